@@ -217,8 +217,8 @@ def evalsites(ctx):
             bad = []
             for site, off in sites:
                 at_x = all(p.is_zero() for p in off)
-                if site.startswith('finite_difference.') and 'DifferenceFunctions.' in site:
-                    continue
+                if site.startswith('finite_difference.'):
+                    continue          # any function of the difference-quotient module (methods, helpers, closures)
                 if site in ALLOWED_AT_X and at_x:
                     continue
                 bad.append((site, tuple(repr(p) for p in off)))
